@@ -1,0 +1,15 @@
+//go:build verif
+
+// Contracts for the deductive verifier in /verif (comment-only file; compiled
+// only with -tags verif and declares nothing).
+
+package enum
+
+//@ # The generated keyword parsers read the generated (immutable) keyword tables only: pure functions of the
+//@ # keyword (static obligation pure-funcs). Which value a keyword denotes is decided under C18.
+//@ func FloatKindFromString
+//@   props C06 C16 C18
+//@   pure
+//@ func FastMathFlagFromString
+//@   props C04 C05 C18
+//@   pure
